@@ -91,6 +91,15 @@ template <class Gr> static void dumpDirObs(std::ostream &o, const Gr &g) {
       << " | ins: " << guard([&] { return joinSeq(g.getInDegrees()); }) << "\n";
     o << "M " << guard([&] { return showMatrix(g.getAdjacencyMatrix()); }) << "\n";
 }
+// `getNeighbours` (LabeledUndirectedGraph only) is documented as "same as getOutNeighbours": a line
+// appears only when it is not
+template <class Gr> static void dumpNbCheck(std::ostream &o, const Gr &g) {
+    size_t n = g.getSize();
+    for (size_t i = 0; i < n; ++i) {
+        std::string a = guard([&] { return joinSeq(g.getNeighbours(i)); }), b = guard([&] { return joinSeq(g.getOutNeighbours(i)); });
+        if (a != b) o << "K " << i << ": getNeighbours=" << a << " getOutNeighbours=" << b << "\n";
+    }
+}
 template <class Gr> static void dumpUndObs(std::ostream &o, const Gr &g) {
     size_t n = g.getSize();
     o << "G deg2: " << eachGuard(n, [&](size_t i) { return std::to_string(g.getDegree(i, true)); })
@@ -186,7 +195,7 @@ template <class L, bool UND> struct GrSlot : SlotBase {
         }
         dumpObs(o);
     }
-    template <bool U = UND> typename std::enable_if<U>::type dumpObs(std::ostream &o) { dumpUndObs(o, g); }
+    template <bool U = UND> typename std::enable_if<U>::type dumpObs(std::ostream &o) { dumpNbCheck(o, g); dumpUndObs(o, g); }
     template <bool U = UND> typename std::enable_if<!U>::type dumpObs(std::ostream &o) { dumpDirObs(o, g); }
 
     template <bool U = UND> typename std::enable_if<!U, bool>::type recip(const Args &a, std::string &out) {
@@ -247,6 +256,7 @@ template <class L, bool UND> struct GrSlot : SlotBase {
     template <bool U = UND> typename std::enable_if<U, bool>::type degQ(const std::string &name, const Args &a, std::string &out) {
         VertexIndex v; bool t;
         if (name == "getDegree" && a.size() == 2 && pv(a[0], v) && pf(a[1], t)) { out = guard([&] { return std::to_string(g.getDegree(v, t)); }); return true; }
+        if (name == "getNeighbours" && a.size() == 1 && pv(a[0], v)) { out = guard([&] { return joinSeq(g.getNeighbours(v)); }); return true; }
         return false;
     }
     bool query(const std::string &name, const Args &a, std::string &out) override {
